@@ -116,6 +116,11 @@ impl<R: Read + Seek> ReadBox<&mut R> for MetaBox {
             let header = BoxHeader::read(reader)?;
             let BoxHeader { name, size: s } = header;
             check_child_size(s)?;
+            if s > size {
+                return Err(Error::InvalidData(
+                    "meta box contains a box with a larger size than it",
+                ));
+            }
 
             match name {
                 BoxType::HdlrBox => {
@@ -147,6 +152,11 @@ impl<R: Read + Seek> ReadBox<&mut R> for MetaBox {
                     let header = BoxHeader::read(reader)?;
                     let BoxHeader { name, size: s } = header;
                     check_child_size(s)?;
+                    if s > size {
+                        return Err(Error::InvalidData(
+                            "meta box contains a box with a larger size than it",
+                        ));
+                    }
 
                     match name {
                         BoxType::IlstBox => {
@@ -171,6 +181,11 @@ impl<R: Read + Seek> ReadBox<&mut R> for MetaBox {
                     let header = BoxHeader::read(reader)?;
                     let BoxHeader { name, size: s } = header;
                     check_child_size(s)?;
+                    if s > size {
+                        return Err(Error::InvalidData(
+                            "meta box contains a box with a larger size than it",
+                        ));
+                    }
 
                     match name {
                         BoxType::HdlrBox => {
